@@ -15,13 +15,11 @@ pub broadcast axiom fn axiom_sha512_len(msg: Seq<u8>)
         #[trigger] sha512_spec(msg).len() == 64,
 ;
 
-/// BLAKE2b (RFC 7693) with libsodium's salt/personal parameter block, digest length `outlen`.
-pub uninterp spec fn blake2b_spec(outlen: nat, key: Seq<u8>, salt: Seq<u8>, personal: Seq<u8>, msg: Seq<u8>) -> Seq<u8>;
-
-pub broadcast axiom fn axiom_blake2b_len(outlen: nat, key: Seq<u8>, salt: Seq<u8>, personal: Seq<u8>, msg: Seq<u8>)
-    ensures
-        #[trigger] blake2b_spec(outlen, key, salt, personal, msg).len() == outlen,
-;
+/// BLAKE2b (RFC 7693) with libsodium's salt/personal parameter block, digest length `outlen`: the definition written
+/// from RFC 7693 in spec_blake2b.rs (the real software BLAKE2b is proved equal to it; pinned by RFC/reference KATs)
+pub open spec fn blake2b_spec(outlen: nat, key: Seq<u8>, salt: Seq<u8>, personal: Seq<u8>, msg: Seq<u8>) -> Seq<u8> {
+    crate::spec_blake2b::blake2b_rfc(outlen, key, salt, personal, msg)
+}
 
 /// HSalsa20(key, input16, constants) — Salsa20 core without the final addition, words 0,5,10,15,6,7,8,9:
 /// the definition written from the Salsa20 specification in spec_cores.rs (the real function is proved equal to it)
